@@ -54,11 +54,46 @@ def gen_case(ctx, k):
             "dt": 1 / 2048, "tmax": 1e9, "state": state,
             "max_iter": ctx.n(120, 3000) if option == "gillespie" else ctx.n(12, 120),
             "edge": info["edge"] if kind == "grid" else list(info["edge"])}
+    cls = k % 8
+    if cls in (1, 5) and kind == "graph" and option == "tauleap":
+        # low copy numbers, diffusion dominated, many steps: nodes run empty and fill again
+        case["net"] = stoch_gen.rand_network(rng, nenv=nenv, max_order=1, nr=rng.choice([0, 0, 1]), chem_p=0.0)
+        for sp in case["net"]["species"]:
+            sp["D"] = float(rng.choice([1, 2, 4]))
+        ns = len(case["net"]["species"])
+        case["state"] = [float(rng.choice([0, 0, 1, 1, 2, 3])) for _ in range(ns * n)]
+        case["dt"] = 1 / 128
+        case["max_iter"] = ctx.n(60, 400)
+        case["cls"] = "lowcopy-graph-tauleap"
+    elif cls in (2, 6) and kind == "grid":
+        # boundary conditions that differ between the axes, with at least 3 layers along one of them
+        dims = [1, rng.choice([1, 2]), rng.choice([3, 4])]
+        rng.shuffle(dims)
+        if dims[0] * dims[1] * dims[2] > 8:
+            dims = [1, 1, 3]
+        w, h, d = dims
+        bc = {"x": rng.choice(["reflecting", "periodical"]), "y": rng.choice(["reflecting", "periodical"])}
+        bc["z"] = "reflecting" if bc["y"] == "periodical" else "periodical"
+        sp = dict(space)
+        sp.update({"w": w, "h": h, "d": d, "cell_env": [rng.randrange(nenv) for _ in range(w * h * d)], "boundary_conditions": bc})
+        case["space"] = sp
+        case["state"] = [float(rng.choice([0, 1, 2, 3, 5])) for _ in range(ns * w * h * d)]
+        case["cls"] = "grid-mixed-boundaries"
+    if rng.random() < 0.4:
+        # explicit chemostat map: a species chemostated in some cells only (the flag masks the change, not the propensity)
+        nn = len(case["state"]) // len(case["net"]["species"])
+        nsp = len(case["net"]["species"])
+        chem = [0] * (nsp * nn)
+        s = rng.randrange(nsp)
+        for i in range(nn):
+            chem[s * nn + i] = int(rng.random() < 0.5)
+        case["chem"] = chem
+        case["net"]["species"][s]["D"] = float(rng.choice([1, 2]))
     return case
 
 
 def small(case):
-    return {k: case[k] for k in ("net", "space", "kind", "option", "seed", "dt", "tmax", "state", "max_iter", "edge")}
+    return {k: case[k] for k in ("net", "space", "kind", "option", "seed", "dt", "tmax", "state", "max_iter", "edge", "chem") if k in case}
 
 
 def apply_effect(x, eff, n, mult=1):
@@ -207,6 +242,10 @@ def run(ctx):
             eng = engine_io.eng_json(arr, edge=case["edge"])
             ctx.count("scripts_" + case["option"])
             ctx.count("space_" + case["kind"])
+            if case.get("cls"):
+                ctx.count("class_" + case["cls"])
+            if case.get("chem") and 0 < sum(case["chem"]) < len(case["chem"]):
+                ctx.count("scripts_with_partial_chemostat_map")
             ctx.count("orders_" + "".join(str(o) for o in sorted(set(rates.order))))
             if any(arr["chem"]):
                 ctx.count("scripts_with_chemostats")
@@ -297,7 +336,7 @@ def run(ctx):
 
 def replay(ctx, rec):
     case = rec.get("case", rec)
-    base = {k: case[k] for k in ("net", "space", "kind", "option", "seed", "dt", "tmax", "state", "max_iter", "edge") if k in case}
+    base = {k: case[k] for k in ("net", "space", "kind", "option", "seed", "dt", "tmax", "state", "max_iter", "edge", "chem") if k in case}
     res = stoch_gen.run_batch("stoch_gen", "child_run", [base], kind="shim", timeout=60)[0]
     if res is None or res.get("hang") or "crash" in res or "exception" in res:
         return False, {"case": base, "impl": res}
